@@ -469,8 +469,10 @@ class EventWalker:
             self.expr(s.value, cond)
             self.target(s.target, cond)
         elif isinstance(s, ast.Return):
-            self.expr(s.value, cond)
-            self.emit("ret", cond)
+            rs = isinstance(s.value, ast.Name) and s.value.id == "self"
+            if not rs:
+                self.expr(s.value, cond)
+            self.emit("ret", cond, rs=rs)
         elif isinstance(s, ast.Raise):
             self.expr(s.exc, cond)
             self.emit("raise", cond, state=False)
@@ -705,6 +707,8 @@ class Interner:
 def _lean_expr(e, I, counter):
     if e["k"] == "param":
         return "(.param %d)" % I(e["p"])
+    if e["k"] == "const" and e.get("src") in ("False", "True"):
+        return "(.lit %s)" % e["src"].lower()
     counter[0] += 1
     if e["k"] == "const":
         return "(.const %d)" % counter[0]
@@ -750,7 +754,7 @@ def to_lean(data, I=None, namespace="SkVerif.Gen"):
                     body.append(".pure")
                 else:
                     body.append(".other")
-            lines.append("  init := some { params := [%s], varargs := %s,\n    body := [%s] }," % (
+            lines.append("  init := some {\n    params := [%s],\n    varargs := %s,\n    body := [%s] }," % (
                 ps, _b(ini["vararg"] or ini["kwarg"]), ",\n      ".join(body)))
         ms = []
         for mname, m in sorted(c["methods"].items()):
@@ -772,26 +776,26 @@ def to_lean(data, I=None, namespace="SkVerif.Gen"):
                 elif k == "raise":
                     evs.append(".raise %s %s" % (_b(e["cond"]), _b(e.get("state", False))))
                 elif k == "ret":
-                    evs.append(".ret %s" % _b(e["cond"]))
-            ms.append("(%d, [%s])" % (I(mname), ", ".join(evs)))
+                    evs.append(".ret %s %s" % (_b(e["cond"]), _b(e.get("rs", False))))
+            ms.append("{ name := %d, isProp := %s, events := [%s] }" % (I(mname), _b(m.get("prop", False)), ", ".join(evs)))
         lines.append("  methods := [%s]," % ",\n    ".join(ms))
         lines.append("  classAttrs := [%s]," % ", ".join(str(I(a)) for a in c["class_attrs"]))
         gp = c["get_params"]
         if gp is None:
             g = ".inherit"
         elif "meta" in gp:
-            g = ".meta %d" % I(gp["meta"])
+            g = ".viaMeta %d" % I(gp["meta"])
         elif "abstract" in gp:
-            g = ".abstract"
+            g = ".abstr"
         else:
             g = ".custom"
         sp = c["set_params"]
         if sp is None:
             s_ = ".inherit"
         elif "meta" in sp:
-            s_ = ".meta %d" % I(sp["meta"])
+            s_ = ".viaMeta %d" % I(sp["meta"])
         elif "abstract" in sp:
-            s_ = ".abstract"
+            s_ = ".abstr"
         else:
             s_ = ".custom"
         lines.append("  getImpl := %s, setImpl := %s," % (g, s_))
